@@ -78,6 +78,12 @@ CHECKS = {
    text="~110 operations x all combinations of 16 operand kinds (1-3 operands), the 1.8M-program expression space, the single-operator space under 6 configuration variants (no recorder, no interpreter, nil HandleErr, NoSkipConstant, ...), and 70 extreme inputs (shift counts up to 2^64, 10^4-digit literals, 1e100000, 10^4-deep nesting, 10^4 arguments/cases/fields/statements). No recovered panic may be a runtime.Error; every execution finishes within 20 s / 3 GiB. Known faults pinned per (stage:site|fault@function) in known/C17.<tier>.tsv.",
    note="Trusted: the classification runtime.Error vs reported error; the watchdog limits (two orders of magnitude above legitimate executions). 'Time and memory proportional to input size' is decided only in this bounded form.",
    design="§4 C17"),
+ "C08": dict(
+   category="exploration",
+   technique="bounded exhaustive enumeration of struct/method type graphs x selectors x operand forms on the real Member/MemberRef code; oracle = go/types Selections on a reference program and on the emitted text",
+   text="85k type graphs (quick; all ~620k thorough) over four local structs and an imported struct with unexported members (value/pointer embedding, colliding names at equal and different depths, value/pointer receivers), 6 selector names x 9 operand forms each (4.6M lookups): acceptance, member kind, reported type, Recorder.Member object owner and the member the emitted text selects must coincide with go/types. Deviations pinned per (kind|form|selector|embedding skeleton) with counts.",
+   note="Trusted: go/types 1.23.5 lookup; member identity across universes by owner type name + member name + type.",
+   design="§4 C08"),
 }
 
 NOT_APPLICABLE = {
